@@ -58,7 +58,7 @@ One(id, r) == [x \in {id} |-> r]
 (*  alt   alternative acceptable new states (id |-> set of records)        *)
 (*  free  subset of {"vals", "upd", "pos"}: parts left unconstrained       *)
 Res(k, exc, vals, alias, upd, alt, free) ==
-  [k |-> k, exc |-> exc, vals |-> vals, alias |-> alias, upd |-> upd, alt |-> alt, free |-> free, arr |-> <<>>]
+  [k |-> k, exc |-> exc, vals |-> vals, alias |-> alias, upd |-> upd, alt |-> alt, free |-> free, arr |-> <<>>, pred |-> ""]
 Ok(vals, alias, upd) == Res("ok", {}, vals, alias, upd, NoUpd, {})
 OkV(val) == Ok(<<val>>, <<"">>, NoUpd)
 OkNone(upd) == Ok(<<VNone>>, <<"">>, upd)
